@@ -114,6 +114,10 @@ pub struct State {
     pub started_once: bool,
     pub exhausted: bool,
     pub diverged: Option<String>,
+    /// Scheduler-contract breach seen by the explorer itself: the runtime kept calling the scheduler
+    /// for an execution after the scheduler had answered `None` ("returning no task ends the
+    /// execution").  (message, path of that execution up to the `None`)
+    pub after_stop: Option<(String, Vec<Node>)>,
     pub stats: Stats,
     /// If set, executions are allowed by `new_execution` until this many have been started in the
     /// current `Runner::run`; used by multi-execution drivers. Default: one execution per run.
@@ -146,6 +150,7 @@ impl Explorer {
                 started_once: false,
                 exhausted: false,
                 diverged: None,
+                after_stop: None,
                 stats: Stats::default(),
                 executions_per_run: 1,
                 started_in_run: 0,
@@ -184,6 +189,9 @@ impl Explorer {
 
     pub fn diverged(&self) -> Option<String> {
         self.st.borrow().diverged.clone()
+    }
+    pub fn after_stop(&self) -> Option<(String, Vec<Node>)> {
+        self.st.borrow().after_stop.clone()
     }
 
     pub fn stats(&self) -> Stats {
@@ -408,6 +416,22 @@ impl Scheduler for Explorer {
 
     fn next_task(&mut self, runnable: &[&Task], current: Option<TaskId>, is_yielding: bool) -> Option<TaskId> {
         let mut s = self.st.borrow_mut();
+        if s.stopped {
+            // the execution was ended by our `None`; stay with that answer so the runtime winds down
+            if s.after_stop.is_none() {
+                let upto = s.pos.min(s.stack.len());
+                let path = s.stack[..upto].to_vec();
+                s.after_stop = Some((
+                    format!(
+                        "next_task called again (offered {:?}, current {:?}) after the scheduler had returned None for this execution",
+                        runnable.iter().map(|t| usize::from(t.id())).collect::<Vec<_>>(),
+                        current.map(usize::from)
+                    ),
+                    path,
+                ));
+            }
+            return None;
+        }
         let kind = NodeKind::Task {
             offered: offered_of(runnable),
             current: current.map(usize::from),
@@ -428,6 +452,15 @@ impl Scheduler for Explorer {
 
     fn next_u64(&mut self) -> u64 {
         let mut s = self.st.borrow_mut();
+        if s.stopped {
+            // user code drawing random data after the scheduler ended the execution
+            if s.after_stop.is_none() {
+                let upto = s.pos.min(s.stack.len());
+                let path = s.stack[..upto].to_vec();
+                s.after_stop = Some(("next_u64 called after the scheduler had returned None for this execution".into(), path));
+            }
+            return 0;
+        }
         if s.opts.data_from_seed {
             // a draw is a step of the schedule but not a branching point
             use rand::RngCore;
